@@ -203,6 +203,21 @@ impl<T> SmallSet<T> {
         self.0.get_full_hashed(value).map(|(_, t, _)| t)
     }
 
+    /// Check internal consistency. Verification hook.
+    #[cfg(starlark_verif)]
+    pub fn verif_check_invariants(&self) -> Result<(), String>
+    where
+        T: Eq,
+    {
+        self.0.verif_check_invariants()
+    }
+
+    /// Does this set currently have a hash index? Verification hook.
+    #[cfg(starlark_verif)]
+    pub fn verif_has_index(&self) -> bool {
+        self.0.verif_has_index()
+    }
+
     /// Find an entry by an index.
     #[inline]
     pub fn get_index(&self, index: usize) -> Option<&T> {
